@@ -110,6 +110,8 @@ func runC19(c *core.Ctx) {
 	c.RuleDoc("R19.3", "View result aliases receiver array+mutex; Slice result is a fresh allocation filled by copy")
 	c.RuleDoc("R19.4", "no invoke / lock-acquiring call while the blob mutex may be held")
 	c.RuleDoc("R19.5", "store to data field is followed by atomic length mirror")
+	c.RuleDoc("R19.11", "no Blob method returns a package-level (shared) blob")
+	c.RuleDoc("R19.12", "the typed-array blob repeats each mutation on its Go-side cache with the same arguments")
 	c.RuleDoc("R19.10", "the typed-array blob never returns the slice that backs its Go-side cache")
 	c.RuleDoc("R19.9", "View and Slice never return the receiver itself")
 	c.RuleDoc("R19.8", "no method of the slice-backed blob panics on purpose")
@@ -135,6 +137,7 @@ func runC19(c *core.Ctx) {
 		c.Info("blob_types_"+p.Target.GOOS, names)
 		for _, n := range impls {
 			r19FreshView(c, p, n)
+			r19NoSharedResult(c, p, n, blobI)
 			sh := discoverBlobShape(p, n)
 			if sh == nil {
 				continue
@@ -156,6 +159,7 @@ func runC19(c *core.Ctx) {
 					continue
 				}
 				r19Sibling(c, p, sh, refGuards)
+				r19MirrorPassesParams(c, p, n)
 			}
 		}
 	}
@@ -169,6 +173,8 @@ func runC19(c *core.Ctx) {
 	c.Floor("R19.8", 6)
 	c.Floor("R19.9", 4)
 	c.Floor("R19.10", 1)
+	c.Floor("R19.11", 2)
+	c.Floor("R19.12", 3)
 }
 
 var blobOps = []string{"View", "Slice", "Set", "Grow", "Truncate"}
@@ -1151,5 +1157,86 @@ func r19CacheNotHandedOut(c *core.Ctx, p *load.Program) {
 			c.Check(!returned, "R19.10", key, p.Pos(nb.Pos()), "the slice that backs the cache is not returned",
 				fmt.Sprintf("%s returns the very slice it has just made the Go-side cache of the blob: the caller holds the cache's backing array, so writing to the result of Bytes() changes what later Bytes()/Slice() calls answer while the typed array is unchanged", fname(fn)))
 		})
+	}
+}
+
+// r19NoSharedResult (R19.11): no method of a Blob implementation returns a Blob loaded from a package-level variable:
+// a shared "empty" result makes every zero-length Slice the same object, so growing or writing one of them shows up
+// in all the others (and in empty Slices of unrelated blobs).
+func r19NoSharedResult(c *core.Ctx, p *load.Program, n *types.Named, blobI *types.Interface) {
+	for _, fn := range methodList(p, n) {
+		if fn.Object() == nil || !fn.Object().Exported() {
+			continue
+		}
+		for ri := 0; ri < fn.Signature.Results().Len(); ri++ {
+			if !types.Identical(fn.Signature.Results().At(ri).Type().Underlying(), blobI) {
+				continue
+			}
+			key := fname(fn) + "|result-is-not-a-shared-object"
+			bad := ""
+			for _, r := range ssax.Returns(fn) {
+				var walk func(v ssa.Value, d int, seen map[ssa.Value]bool)
+				walk = func(v ssa.Value, d int, seen map[ssa.Value]bool) {
+					if v == nil || d > 6 || seen[v] {
+						return
+					}
+					seen[v] = true
+					v = resolveSpilled(v, r)
+					switch x := v.(type) {
+					case *ssa.MakeInterface:
+						walk(x.X, d+1, seen)
+					case *ssa.ChangeInterface:
+						walk(x.X, d+1, seen)
+					case *ssa.Phi:
+						for _, e := range x.Edges {
+							walk(e, d+1, seen)
+						}
+					case *ssa.UnOp:
+						if g, ok := x.X.(*ssa.Global); ok && x.Op == token.MUL {
+							bad = fmt.Sprintf("%s (returned at %s)", g.Name(), p.Pos(r.Pos()))
+						}
+					}
+				}
+				walk(r.Results[ri], 0, map[ssa.Value]bool{})
+			}
+			c.Check(bad == "", "R19.11", key, p.Pos(fn.Pos()), "every returned Blob is built in the call",
+				fmt.Sprintf("%s returns the package-level object %s as its result: every call that takes this shortcut returns the SAME blob, so a Grow or Set on one result is visible through all the others — Slice results must be independent copies", fname(fn), bad))
+		}
+	}
+}
+
+// r19MirrorPassesParams (R19.12, js/wasm): a method M of the typed-array blob that repeats the operation on its
+// Go-side cache (a *blob.Bytes) calls the cache's method of the same name with M's own parameters, unchanged and in
+// order — Grow(off) must grow the cache by off, not by the new length.
+func r19MirrorPassesParams(c *core.Ctx, p *load.Program, n *types.Named) {
+	cnt := 0
+	for _, fn := range methodList(p, n) {
+		ord := ordinals{}
+		ssax.Instrs(fn, func(ins ssa.Instruction) {
+			cl, ok := ins.(*ssa.Call)
+			if !ok {
+				return
+			}
+			callee := ssax.StaticCallee(cl)
+			if callee == nil || callee.Name() != fn.Name() || callee.Signature.Recv() == nil || callee == fn {
+				return
+			}
+			if !strings.HasSuffix(callee.Signature.Recv().Type().String(), "keyvalue/blob.Bytes") {
+				return
+			}
+			cnt++
+			key := fname(fn) + "|" + ord.next("mirror-call-passes-parameters")
+			bad := ""
+			for i := 1; i < len(cl.Call.Args) && i < len(fn.Params); i++ {
+				if cl.Call.Args[i] != ssa.Value(fn.Params[i]) {
+					bad = fmt.Sprintf("argument #%d is %s, not the parameter %s", i, vname(cl.Call.Args[i]), fn.Params[i].Name())
+				}
+			}
+			c.Check(bad == "", "R19.12", key, p.Pos(cl.Pos()), "the cache repeats the operation with the same arguments",
+				fmt.Sprintf("%s repeats the operation on its Go-side cache with other arguments (%s): the typed array and Len() stay right, but Bytes() — served from the cache — returns other bytes than the blob holds", fname(fn), bad))
+		})
+	}
+	if cnt < 3 {
+		c.Hard("anchor: mirror calls of the typed-array blob on its cache (found %d)", cnt)
 	}
 }
